@@ -17,9 +17,10 @@ rust2coq.py.  AST nodes are tuples whose 2nd component is always the source line
     ('struct', ln, path-node, [(field, expr)])     (shorthand `Self { key }` gives (key, path key))
     ('closure', ln, [param names], body)           ('macro', ln, name, [args])   (args parsed as exprs)
     ('return', ln, e|None)       ('for', ln, pattern, iter-expr, block)          ('tuple', ln, [es])
-    ('match', ln, scrutinee, [(pattern, arm-expr)])    ('range', ln, lo, hi)     ('break', ln)   ('continue', ln)
+    ('tfield', ln, e, index)     ('match', ln, scrutinee, [(pattern, arm-expr)])    ('range', ln, lo, hi)     ('break', ln)   ('continue', ln)
   patterns (only what `if let` / `for` / `let` need)
     ('pbind', ln, name, is_mut)  ('ptuplestruct', ln, path-node, [patterns])     ('pwild', ln)    ('ptuple', ln, [patterns])
+    ('pref', ln, pattern)   ('pstruct', ln, path-node, [(field, pattern)], has_rest)   ('ppath', ln, path-node)  (e.g. `None`)
   statements
     ('let', ln, pattern, type-string|None, init-expr)     ('expr', ln, e, has_semicolon)
 """
@@ -145,6 +146,7 @@ def closure_param(p):
     if p[0] == "pbind": return p[2]
     if p[0] == "pwild": return "_"
     if p[0] == "ptuple": return tuple(closure_param(q) for q in p[2])
+    if p[0] == "pref" and p[2][0] == "pbind": return "&" + p[2][2]
     raise Lost(p[1], "closure parameter pattern outside the subset")
 
 
@@ -280,6 +282,10 @@ class Parser:
                 if not self.accept(","): break
             self.expect(")")
             return ("ptuple", x.line, subs)
+        if self.at("&"):
+            self.next()
+            if self.at("mut"): self.lost("`&mut` pattern is outside the subset")
+            return ("pref", x.line, self.pattern())
         if self.at("mut") and self.peek(1).kind == "id":
             self.next(); return ("pbind", x.line, self.ident(), True)
         if x.kind == "id" or (x.kind == "kw" and x.text in ("Self", "crate")):
@@ -291,8 +297,24 @@ class Parser:
                     if not self.accept(","): break
                 self.expect(")")
                 return ("ptuplestruct", x.line, p, subs)
+            if self.at("{"):
+                self.next(); fields = []; rest = False
+                while not self.at("}"):
+                    if self.accept(".."):
+                        rest = True; break
+                    ln = self.peek().line
+                    f = self.ident()
+                    if self.accept(":"):
+                        fields.append((f, self.pattern()))
+                    else:
+                        fields.append((f, ("pbind", ln, f, False)))
+                    if not self.accept(","): break
+                self.expect("}")
+                return ("pstruct", x.line, p, fields, rest)
             if len(p[2]) == 1 and isinstance(p[2][0], str) and p[2][0][0].islower():
                 return ("pbind", x.line, p[2][0], False)
+            if all(isinstance(q, str) for q in p[2]):
+                return ("ppath", x.line, p)
             self.lost("pattern form outside the subset", x)
         self.lost("pattern form outside the subset: `%s`" % x.text)
 
@@ -331,7 +353,7 @@ class Parser:
             self.expect("|")
             while not self.at("|"):
                 p = self.pattern()
-                if p[0] not in ("pbind", "pwild", "ptuple"): self.lost("closure parameter pattern outside the subset", x)
+                if p[0] not in ("pbind", "pwild", "ptuple", "pref"): self.lost("closure parameter pattern outside the subset", x)
                 if self.accept(":"): self.parse_type()
                 params.append(closure_param(p))
                 if not self.accept(","): break
@@ -396,7 +418,8 @@ class Parser:
                 self.next()
                 y = self.peek()
                 if y.kind == "num":
-                    self.lost("tuple field access is outside the subset")
+                    if y.val[1] is not None: self.lost("tuple field access with a suffixed index")
+                    self.next(); e = ("tfield", x.line, e, y.val[0]); continue
                 if self.at("await"): self.lost("await")
                 name = self.ident()
                 if self.at("::"):
